@@ -888,3 +888,83 @@ func (n *Node) write(b *strings.Builder) {
 		w(")")
 	}
 }
+
+// TokenShape renders the token kinds of src (for clustering); "unlexable" when
+// the string cannot be scanned.
+func TokenShape(src string, max int) string {
+	toks, err := lex(src)
+	if err != nil {
+		return "unlexable"
+	}
+	var parts []string
+	for i, t := range toks {
+		if t.kind == tEOF {
+			break
+		}
+		if i >= max {
+			parts = append(parts, "...")
+			break
+		}
+		parts = append(parts, kindName(t))
+	}
+	return strings.Join(parts, " ")
+}
+
+func kindName(t token) string {
+	switch t.kind {
+	case tIdent:
+		if t.text == "let" || t.text == "in" {
+			return t.text
+		}
+		return "id"
+	case tQuoted:
+		return "quoted"
+	case tRaw:
+		return "raw"
+	case tLiteral:
+		return "lit"
+	case tNumber:
+		return "num"
+	case tVariable:
+		return "var"
+	}
+	return t.text
+}
+
+// Tok is an exported view of one token.
+type Tok struct {
+	Text     string
+	Pos, End int
+}
+
+// Tokens scans src; ok=false when it cannot be scanned.
+func Tokens(src string) ([]Tok, bool) {
+	toks, err := lex(src)
+	if err != nil {
+		return nil, false
+	}
+	var out []Tok
+	for _, t := range toks {
+		if t.kind != tEOF {
+			out = append(out, Tok{t.text, t.pos, t.end})
+		}
+	}
+	return out, true
+}
+
+// TailShape renders the kinds of the last n tokens of src.
+func TailShape(src string, n int) string {
+	toks, err := lex(src)
+	if err != nil {
+		return "unlexable"
+	}
+	toks = toks[:len(toks)-1]
+	if len(toks) > n {
+		toks = toks[len(toks)-n:]
+	}
+	var parts []string
+	for _, t := range toks {
+		parts = append(parts, kindName(t))
+	}
+	return strings.Join(parts, " ")
+}
